@@ -1,4 +1,5 @@
 import CCV.Lemmas.Know
+import CCV.Lemmas.KnowTrie
 /-
   C02 — each party can run the protocol from its own data and the messages it receives.
 
@@ -36,7 +37,7 @@ theorem base_agree (hin : ∀ i p, Agree p (inStat i) (inp p i) (real i))
       (evalNode sem real (gtape tape owner) env n) := by
   have hdep : ∀ d ∈ n.deps, Agree p (henv.getD d (.leaf PS.none)) ((st p).getD d .nil) (env.getD d .nil) :=
     fun d hd => hI.agree d (hsc d hd) p
-  unfold hBase evalNode
+  unfold hBase hBaseF evalNode
   cases hk : n.k with
   | input i => exact hin i p
   | random r =>
@@ -176,6 +177,27 @@ theorem shared_correct (hin : ∀ i p, Agree p (inStat i) (inp p i) (real i)) (g
     agree_meet 1 _ _ _ (agree_nth 1 2 _ _ _ (H 1)) h12,
     agree_meet 2 _ _ _ (agree_nth 2 2 _ _ _ (H 2)) h22,
     agree_meet 2 _ _ _ (agree_nth 2 0 _ _ _ (H 2)) h20⟩
+
+/-- **Revealed output, trie-based check** (the form used by the generated obligations: same analysis,
+    O(log n) environment so that the kernel can evaluate it on graphs of thousands of nodes). -/
+theorem revealedT_correct (hin : ∀ i p, Agree p (inStat i) (inp p i) (real i)) (g : List Node)
+    (out : Nat) (outs : PS) (hok : okRevealedT inStat owner g out outs = true)
+    (p : Nat) (hp : PS.mem p outs = true) :
+    (exec3 sem inp tape g (fun _ => []) p).getD out .nil
+      = (evalG sem real (gtape tape owner) g []).getD out .nil :=
+  let ⟨h1, h2⟩ := okRevealedT_sound inStat owner g out outs hok
+  revealed_correct sem inp tape real inStat owner hin g out h2 outs h1 p hp
+
+/-- **Shared output, trie-based check.** -/
+theorem sharedT_correct (hin : ∀ i p, Agree p (inStat i) (inp p i) (real i)) (g : List Node)
+    (out : Nat) (hok : okSharedT inStat owner g out = true) :
+    let v := fun p => (exec3 sem inp tape g (fun _ => []) p).getD out .nil
+    let w := (evalG sem real (gtape tape owner) g []).getD out .nil
+    nthV 0 (v 0) = nthV 0 w ∧ nthV 1 (v 0) = nthV 1 w ∧
+    nthV 1 (v 1) = nthV 1 w ∧ nthV 2 (v 1) = nthV 2 w ∧
+    nthV 2 (v 2) = nthV 2 w ∧ nthV 0 (v 2) = nthV 0 w :=
+  let ⟨h1, h2⟩ := okSharedT_sound inStat owner g out hok
+  shared_correct sem inp tape real inStat owner hin g out h2 h1
 
 end
 end CCV.C02
